@@ -192,7 +192,9 @@ class History:
                   "apply_skip": {"skip_validation": True}}[call]
             try:
                 r = op.apply(s, **kw)
-            except ValueError:
+            except Exception as e:  # noqa
+                if not lib.is_refusal(e):
+                    raise
                 return ("refused",)
             self.results.append(r)
             return ("state", r)
